@@ -102,7 +102,7 @@ func gen(g *hx.Gen) {
 		g.Emit("cc cfg=%d", i)
 	}
 	g.Emit("cc cfg=nil")
-	n := g.Count(2500, 20000)
+	n := g.Count(2000, 20000)
 	for i := 0; i < n; i++ {
 		a := hx.Pick(r, halgs)
 		switch k := r.Intn(20); {
